@@ -163,38 +163,62 @@ def idx1(ctx, fn, clause, expect_ops=None, rule="IDX-1"):
 
 # ---------------------------------------------------------------------- clamp
 def clamp_check(ctx, fn, size_texts, clause, rule="SIB-3"):
-    """n = min(<size>, n) dominates every use of n after the default handling."""
+    """count = min(<size>, requested) dominates every use of the count; the requested count is replaced by the default
+    only when it was not given.  The clamped value and the requested one may be the same variable (n = min(size, n)) or
+    two (after a helper was inlined: length, n = (length_1, min(length_1, n_1)))."""
     repo = ctx.repo
-    clamps = []
+    from ..forms import resolved_text as _rt
+    clamps = []          # (statement, min call, clamped variable, requested variable)
     for f, c in calls_in(fn, False):
-        if isinstance(c.func, ast.Name) and c.func.id == "min" and repo.dotted(f, c.func) == "builtins.min" and len(c.args) == 2:
-            from ..forms import resolved_text as _rt
-            texts = {norm(a) for a in c.args} | {_rt(fn, a, c) for a in c.args}
-            par = fn.module.parent.get(c)
-            if isinstance(par, ast.Assign) and isinstance(par.targets[0], ast.Name) and par.targets[0].id in texts \
-                    and texts & set(size_texts):
-                clamps.append((par, c))
+        if not (isinstance(c.func, ast.Name) and c.func.id == "min" and repo.dotted(f, c.func) == "builtins.min" and len(c.args) == 2):
+            continue
+        rtexts = [_rt(fn, a, c) for a in c.args]
+        ntexts = [norm(a) for a in c.args]
+        size_i = next((i_ for i_ in (0, 1) if rtexts[i_] in size_texts or ntexts[i_] in size_texts), None)
+        if size_i is None or not isinstance(c.args[1 - size_i], ast.Name):
+            continue
+        req = c.args[1 - size_i].id
+        par = fn.module.parent.get(c)
+        tgt = None
+        stmt = None
+        if isinstance(par, ast.Assign) and isinstance(par.targets[0], ast.Name):
+            tgt, stmt = par.targets[0].id, par
+        elif isinstance(par, ast.Tuple) and isinstance(fn.module.parent.get(par), ast.Assign):
+            stmt = fn.module.parent.get(par)
+            t0 = stmt.targets[0]
+            if isinstance(t0, ast.Tuple) and len(t0.elts) == len(par.elts) and isinstance(t0.elts[par.elts.index(c)], ast.Name):
+                tgt = t0.elts[par.elts.index(c)].id
+        if tgt is not None:
+            clamps.append((stmt, c, tgt, req))
     ok = len(clamps) >= 1
     node = clamps[0][0] if clamps else fn.node
+    if not clamps:
+        # the count may be clamped inside a helper this check does not see into: that is "cannot tell", not "unclamped"
+        passes_on = [c for f, c in calls_in(fn, False) if repo.resolve_call(f, c)[0] in ("pkg", "method")
+                     and any(isinstance(a, ast.Name) and a.id in fn.all_params and a.id not in ("self", "cls") for a in c.args)
+                     and not (isinstance(c.func, ast.Attribute) and c.func.attr in ("slice", "_new", "copy"))]
+        if passes_on:
+            raise AnalysisError(f"{fn.qualname}: no `min(size, n)` in the method itself and the count is handed to {norm(passes_on[0].func)}: "
+                                f"the clamp was moved where {rule} does not read it")
     if ok:
         cfg = cfg_of(fn)
-        cn = cfg_node_of(fn, clamps[0][0])
-        var = clamps[0][0].targets[0].id
-        # every later load of var (outside the None-default handling) is dominated by the clamp
+        stmt, call, var, req = clamps[0]
+        cn = cfg_node_of(fn, stmt)
         for n in body_nodes(fn.node):
-            if isinstance(n, ast.Name) and n.id == var and isinstance(n.ctx, ast.Load):
-                un = cfg_node_of(fn, n)
-                if un is None or un is cn:
-                    continue
-                if un.kind == "test" and "None" in norm(un.ast):
-                    continue
-                # n = default if n is None else n  -- the default handling written as a conditional expression
-                if un.kind == "stmt" and isinstance(un.ast, ast.Assign) and isinstance(un.ast.value, ast.IfExp) \
-                        and "None" in norm(un.ast.value.test) and any(isinstance(t, ast.Name) and t.id == var for t in un.ast.targets):
-                    continue
-                if not cfg.dominates(cn, un):
-                    ok = False
-                    node = n
+            if not (isinstance(n, ast.Name) and isinstance(n.ctx, ast.Load) and n.id in (var, req)):
+                continue
+            un = cfg_node_of(fn, n)
+            if un is None or un is cn:
+                continue
+            if un.kind == "test" and "None" in norm(un.ast):
+                continue
+            if un.kind == "stmt" and isinstance(un.ast, ast.Assign) and any(isinstance(t, ast.Name) and t.id == req for t in un.ast.targets) \
+                    and (isinstance(un.ast.value, ast.IfExp) and "None" in norm(un.ast.value.test) or norm(un.ast.value) == n.id):
+                continue          # default handling / parameter hand-over: n = default if n is None else n ; n_1 = n
+            if n.id == var and not cfg.dominates(cn, un):
+                ok, node = False, n
+            if n.id == req and req != var and cfg.dominates(cn, un):
+                ok, node = False, n       # the unclamped request is used after the clamp exists
     ctx.ob(rule, fn, f"n = min({sorted(size_texts)[0]}, n)", node, ok,
            "the requested count is clamped to the available size before use" if ok else
            "the requested count is used without (or before) being clamped to the available size: "
@@ -202,19 +226,20 @@ def clamp_check(ctx, fn, size_texts, clause, rule="SIB-3"):
            clause=clause)
     # the count the caller asked for is replaced by the default only when it was not given
     if clamps:
-        var = clamps[0][0].targets[0].id
+        stmt0, _c, _v, req = clamps[0]
         for n in body_nodes(fn.node):
-            if isinstance(n, ast.Assign) and n is not clamps[0][0] and any(isinstance(t, ast.Name) and t.id == var for t in n.targets):
+            if isinstance(n, ast.Assign) and n is not stmt0 and any(isinstance(t, ast.Name) and t.id == req for t in n.targets):
+                if isinstance(n.value, ast.Name) and n.value.id in fn.all_params:
+                    continue      # n_1 = n : the parameter handed to an inlined helper
                 facts = set(facts_at(fn, n))
-                okd = ("T", f"{var} is None") in facts or ("F", f"{var} is not None") in facts
+                okd = ("T", f"{req} is None") in facts or ("F", f"{req} is not None") in facts
                 if isinstance(n.value, ast.IfExp):
-                    # n = default if n is None else n : every leaf other than n itself must be under `n is None`
                     from ..forms import split_ifexp
-                    okd = all((isinstance(leaf, ast.Name) and leaf.id == var) or ("T", f"{var} is None") in (facts | set(f_))
-                              or ("F", f"{var} is not None") in (facts | set(f_)) for leaf, f_ in split_ifexp(n.value))
-                ctx.ob(rule, fn, f"{norm(n)} only when {var} is None", n, okd,
+                    okd = all((isinstance(leaf, ast.Name) and leaf.id == req) or ("T", f"{req} is None") in (facts | set(f_))
+                              or ("F", f"{req} is not None") in (facts | set(f_)) for leaf, f_ in split_ifexp(n.value))
+                ctx.ob(rule, fn, f"{norm(n)} only when {req} is None", n, okd,
                        "the default count replaces a count that was not given" if okd else
-                       f"{norm(n)} is not under `{var} is None`: a count given by the caller is replaced by the default "
+                       f"{norm(n)} is not under `{req} is None`: a count given by the caller is replaced by the default "
                        f"(and an omitted one reaches min() as None)", clause=clause)
     return 1
 
